@@ -608,6 +608,16 @@ def r10(ctx):
     ctx.share("C01.R10", C08.r5, "C08.R5", floor=4)
 
 
+def r11(ctx):
+    """the frame limit of the session codec bounds the difference two replicas can reconcile within one range (everything a peer
+    lacks in a range it holds nothing of travels in one message): it is not lowered below the value the released peers use,
+    1 GiB - a smaller limit makes sessions between a well-filled and a fresh replica fail on every attempt"""
+    f = ctx.facts
+    c = f.const("net::codec::MAX_MESSAGE_SIZE")
+    v = c["val"]
+    ctx.check(isinstance(v, int) and v >= 1 << 30, "C01.R11", "net::codec::MAX_MESSAGE_SIZE", "frame-limit-not-lowered", "MAX_MESSAGE_SIZE = %s; spec: >= 2^30" % v, c["sp"])
+    ctx.floor("C01.R11", 1)
+
 def run(ctx):
     ctx.run_rule("C01.R1", r1)
     ctx.run_rule("C01.R2", r2)
@@ -619,3 +629,4 @@ def run(ctx):
     ctx.run_rule("C01.R8", r8)
     ctx.run_rule("C01.R9", r9)
     ctx.run_rule("C01.R10", r10)
+    ctx.run_rule("C01.R11", r11)
